@@ -392,50 +392,64 @@ func c04Table(c *Ctx) {
 		report("C04.R2", "resumption", resume, "i += pos exactly once on the success path of each nested call")
 		c.R.Count("table entries "+m.name, len(rows))
 		c.R.Floor("C04.R1/"+m.name+"-table", len(rows), len(m.states)*4*len(classes))
-		// loop header and tail (AST)
+		// loop header and tail (SX)
+		sm := m.sx()
 		hob := c.Ob("C04.R2", m.name+"/advance", m.loop.Pos())
-		good := false
-		if as, ok := m.loop.Body.List[0].(*ast.AssignStmt); ok && len(as.Lhs) == 2 && len(as.Rhs) == 1 {
-			if call, ok := unparen(as.Rhs[0]).(*ast.CallExpr); ok && c.calleeFull(call) == "unicode/utf8.DecodeRuneInString" && len(call.Args) == 1 && m.isJSONSuffix(call.Args[0]) && c.obj(as.Lhs[1]) == m.sizeV && c.obj(as.Lhs[0]) == m.charV {
-				good = true
+		good := sm.loop != nil && sm.loop.CondT != nil
+		if good {
+			// i < len(json)
+			b, ok := sm.loop.CondT.(TBin)
+			good = ok && b.Op == token.LSS && m.loopVar(b.X, m.idxV)
+			if good {
+				ln, ok := b.Y.(TBuiltin)
+				good = ok && ln.Name == "len" && len(ln.Args) == 1 && isParamTerm(ln.Args[0], m.jsonV)
 			}
 		}
-		// size and i are written nowhere else except `i += pos`
-		nSize, nIdxOther := 0, 0
-		ast.Inspect(m.loop.Body, func(n ast.Node) bool {
-			switch x := n.(type) {
-			case *ast.AssignStmt:
-				for _, l := range x.Lhs {
-					if c.obj(l) == m.sizeV {
-						nSize++
-					}
-					if c.obj(l) == m.idxV && x.Tok != token.ADD_ASSIGN {
-						nIdxOther++
-					}
+		// post: i += size, where size is the decoded size of the rune at json[i:] on every iteration path that continues
+		if good {
+			as, ok := sm.loop.Post.(*ast.AssignStmt)
+			good = ok && as.Tok == token.ADD_ASSIGN && len(as.Lhs) == 1 && c.obj(as.Lhs[0]) == m.idxV && c.obj(as.Rhs[0]) == m.sizeV
+		}
+		if good {
+			for _, ip := range sm.iter {
+				if ip.End != "fall" && ip.End != "continue" {
+					continue
 				}
-			case *ast.IncDecStmt:
-				if c.obj(x.X) == m.idxV || c.obj(x.X) == m.sizeV {
-					nIdxOther++
+				sz, ok := ip.Env[m.sizeV]
+				pr, isP := sz.(TProj)
+				if !ok || !isP || pr.K != 1 || !m.isDecode(pr.X) {
+					good = false
+					break
 				}
-			case *ast.BranchStmt:
-				if x.Label != nil || x.Tok == token.GOTO || x.Tok == token.BREAK {
-					nIdxOther++
+				d := pr.X.(TCall)
+				sl, isS := (TSlice{}), false
+				if len(d.Args) == 1 {
+					sl, isS = d.Args[0].(TSlice)
+				}
+				if !isS || !isParamTerm(sl.X, m.jsonV) || !m.loopVar(sl.Lo, m.idxV) || sl.Hi != nil {
+					good = false
+					break
 				}
 			}
-			return true
-		})
-		cond, okc := unparen(m.loop.Cond).(*ast.BinaryExpr)
-		condOK := okc && cond.Op == token.LSS && c.obj(cond.X) == m.idxV
-		if condOK {
-			lc, ok := unparen(cond.Y).(*ast.CallExpr)
-			condOK = ok && c.isBuiltin(lc, "len") && c.obj(lc.Args[0]) == m.jsonV
 		}
-		hob.Check(good && nSize == 1 && nIdxOther == 0 && condOK, "for i < len(json); i += size with (char, size) = DecodeRuneInString(json[i:]) as the first statement; size 0 is rejected by the guard; no break/goto/labelled branch; i otherwise only grows by a nested offset",
-			"loop does not advance by exactly the decoded size of the current rune (or has a break/goto/labelled branch)")
-		tail, ok := m.fn.Body.List[len(m.fn.Body.List)-1].(*ast.ReturnStmt)
+		hob.Check(good, "for i < len(json); i += size with (char, size) = DecodeRuneInString(json[i:]) on every continuing iteration path; size 0 is rejected by the guard (table); i otherwise only grows by a nested offset (table)",
+			"loop does not advance by exactly the decoded size of the current rune")
 		tob := c.Ob("C04.R3", m.name+"/end-of-input", m.fn.End())
-		tob.Check(ok && len(tail.Results) == 3 && c.isNil(tail.Results[0]) && !c.isNil(tail.Results[2]) && m.fn.Body.List[len(m.fn.Body.List)-2] == ast.Stmt(m.loop),
-			"running out of input is an error: the statement after the loop is return (nil, 0, error)", "the statement after the loop is not an error return: a truncated document is accepted")
+		okTail := sm.after != nil && sm.after.End == "return" && len(sm.after.Vals) == 3
+		if okTail {
+			_, n0 := sm.after.Vals[0].(TNil)
+			_, n2 := sm.after.Vals[2].(TNil)
+			okTail = n0 && !n2
+			for _, st := range sm.after.Steps {
+				if st.Kind != "loop" && st.Kind != "cond" {
+					if st.Kind == "call" && st.Call != nil && st.Call.Fun != nil && st.Call.Fun.Pkg() != c.Types {
+						continue
+					}
+					okTail = false
+				}
+			}
+		}
+		tob.Check(okTail, "running out of input is an error: leaving the loop normally returns (nil, 0, error)", "leaving the loop normally does not return an error: a truncated document is accepted")
 	}
 }
 
@@ -865,49 +879,23 @@ func c20Counter(c *Ctx) {
 		if m.undecidedOb(c, "C20.R1") {
 			continue
 		}
-		// statement position: decode, guard, counter
-		pob := c.Ob("C20.R1", m.name+"/counter-statement", m.loop.Pos())
-		good := len(m.loop.Body.List) >= 4
-		var incPos token.Pos
-		if good {
-			is, ok := m.loop.Body.List[2].(*ast.IfStmt)
-			good = ok && is.Else == nil && is.Init == nil && len(is.Body.List) == 1
-			if good {
-				be, ok := unparen(is.Cond).(*ast.BinaryExpr)
-				good = ok && be.Op == token.EQL && c.obj(be.X) == m.charV
-				if good {
-					k, ok := c.constInt(be.Y)
-					good = ok && k == '\n'
-				}
-				good = good && m.isLineInc(is.Body.List[0])
-				incPos = is.Body.List[0].Pos()
-			}
-			_, isSwitch := m.loop.Body.List[3].(*ast.SwitchStmt)
-			good = good && isSwitch
-		}
-		pob.Check(good, "`if char == '\\n' { *line += 1 }` is the third statement of the loop body (after decode and guard, before the state switch): executed exactly once per decoded rune in every state",
-			"the newline counter is not the unconditional third statement of the loop body (it must dominate the state switch)")
-		// uniqueness: no other write to *line / line
+		// single writer: outside the main loop nothing writes *line; inside, the table decides the delta
+		sm := m.sx()
 		n := 0
-		ast.Inspect(m.fn.Body, func(node ast.Node) bool {
-			switch x := node.(type) {
-			case *ast.IncDecStmt:
-				if st, ok := unparen(x.X).(*ast.StarExpr); ok && c.obj(st.X) == m.lineV && x.Pos() != incPos {
-					n++
-				}
-			case *ast.AssignStmt:
-				for _, l := range x.Lhs {
-					if st, ok := unparen(l).(*ast.StarExpr); ok && c.obj(st.X) == m.lineV && x.Pos() != incPos {
-						n++
-					}
-					if c.obj(l) == m.lineV {
+		check := func(steps []Step) {
+			for _, st := range steps {
+				if st.Kind == "store" {
+					if d, ok := st.LHS.(TDeref); ok && isParamTerm(d.X, m.lineV) {
 						n++
 					}
 				}
 			}
-			return true
-		})
-		c.Ob("C20.R1", m.name+"/single-writer", m.fn.Pos()).Check(n == 0, "nothing else writes *line or rebinds line", itoa(n)+" other write(s) to the line counter")
+		}
+		check(sm.prelude)
+		if sm.after != nil {
+			check(sm.after.Steps[len(sm.prelude):])
+		}
+		c.Ob("C20.R1", m.name+"/single-writer", m.fn.Pos()).Check(n == 0 && !writesVar(c, m.fn.Body, m.lineV), "outside the per-rune step nothing writes *line, and `line` is never rebound", itoa(n)+" write(s) to the line counter outside the per-rune step (or line is rebound)")
 		// table delta
 		bad, cnt := "", 0
 		var bpos token.Pos
@@ -939,22 +927,27 @@ func c20Counter(c *Ctx) {
 		} else {
 			tob.Fail("%s", bad)
 		}
-		// R2: nested calls
+		// R2: nested calls (recognised by E5 only when they receive the identical `line` pointer and json[i:]; anything else is UNDECIDED above)
+		sites := map[token.Pos]bool{}
+		for _, r := range m.table() {
+			for _, ex := range r.Exits {
+				for _, a := range ex.Env.Acts {
+					if a.Op == "NESTED" {
+						sites[a.Pos] = true
+					}
+				}
+			}
+		}
 		k := 0
-		ast.Inspect(m.loop.Body, func(node ast.Node) bool {
-			call, ok := node.(*ast.CallExpr)
-			if !ok {
-				return true
-			}
-			f := c.callee(call)
-			if f == nil || (f.Name() != "parseList" && f.Name() != "parseObject") || len(call.Args) != 2 {
-				return true
-			}
+		var ps []token.Pos
+		for p := range sites {
+			ps = append(ps, p)
+		}
+		sort.Slice(ps, func(i, j int) bool { return ps[i] < ps[j] })
+		for _, p := range ps {
 			k++
-			c.Ob("C20.R2", m.name+"/nested-call#"+itoa(k), call.Pos()).Check(c.obj(call.Args[1]) == m.lineV && m.isJSONSuffix(call.Args[0]),
-				"nested machine receives the identical line pointer and json[i:]", "nested machine does not receive the identical `line` pointer (newlines inside the nested container are lost or double-counted)")
-			return true
-		})
+			c.Ob("C20.R2", m.name+"/nested-call#"+itoa(k), p).Ok("nested machine receives the identical line pointer and json[i:]; its region is skipped by i += pos exactly once (C04.R2)")
+		}
 		c.R.Floor("C20.R2/"+m.name, k, 2)
 		// R4 (part): consumers receive *line
 		var ks []token.Pos
